@@ -60,11 +60,12 @@ func init() {
 		Cases: func(tier string) int { return tierN(tier, 640, 40000) },
 		Rule: "case = one generated history (10-40 ops quick, 10-120 thorough; hostile key universes of 1-12 keys; ops Set/Remove/SaveVersion/Rollback/reopen/LoadVersion/DeleteVersionsTo/LoadVersionForOverwriting/DeleteVersionsFrom+reload, 8% invalid version arguments, Set(k,nil)) " +
 			"executed under 3 independently drawn configurations (cache 0/1/3/1000 x fast index x flush threshold 150..default x sync x initial version x MemStore/MemDB/PrefixDB; GoLevelDB 1 case in 10) against the versioned-map model; after every step the full read battery " +
-			"(Get, Has, GetWithIndex, GetByIndex over all ranks incl. -1 and n, Size, Iterate, GetVersioned) runs on the working tree and on every retained version. distinct = hash(config, ops); non-trivial = >=2 commits and >=1 of {prune, rollback-to-version, reopen/load}.",
+			"Every 5th case uses its first handle without an initial Load(): a prefix of 3-6 operations writes to the fresh tree, then issues LoadVersion on the store that still has no version (nothing is loaded, the working tree is kept), with or without a Rollback after it, and the planned history follows. (Get, Has, GetWithIndex, GetByIndex over all ranks incl. -1 and n, Size, Iterate, GetVersioned) runs on the working tree and on every retained version. distinct = hash(config, ops); non-trivial = >=2 commits and >=1 of {prune, rollback-to-version, reopen/load}.",
 		Assumptions: []string{"the versioned-map model M (internal/model, ~150 lines) is the specification", "keys non-empty, values non-nil (nil is generated and must be rejected)", "DeleteVersionsTo is only issued for versions below the one the working tree is based on"},
 		Run: func(c *fw.Ctx) {
 			p := params(c.Tier)
 			pl := v1x.MakePlan(c.Rng, p)
+			v1x.LazyPrefix(pl, c.Index)
 			if c.Index%10 == 9 {
 				pl.Cfg.Backend = "goleveldb"
 			}
